@@ -1,11 +1,13 @@
 //! pwsim — deterministic simulator with fault injection for `piecewise_polynomial`.
 
+mod bytesrc;
 mod cursor;
 mod dd;
 mod engine;
 mod funcs;
 mod integ;
 mod pieces;
+mod pipe;
 mod rng;
 
 use engine::*;
@@ -28,6 +30,7 @@ struct Args {
     evidence: Option<String>,
     replay_dir: String,
     file: Option<String>,
+    merge_part: Option<String>,
 }
 
 fn parse_args() -> Args {
@@ -46,6 +49,7 @@ fn parse_args() -> Args {
         evidence: None,
         replay_dir: format!("{root}/replays"),
         file: None,
+        merge_part: None,
     };
     let mut tier_from_cli = false;
     while let Some(x) = it.next() {
@@ -65,6 +69,7 @@ fn parse_args() -> Args {
             "--seed" => a.seed = val().parse().unwrap_or_else(|_| usage()),
             "--evidence" => a.evidence = Some(val()),
             "--replay-dir" => a.replay_dir = val(),
+            "--merge-part" => a.merge_part = Some(val()),
             s if !s.starts_with("--") && a.file.is_none() => a.file = Some(s.to_string()),
             _ => usage(),
         }
@@ -92,6 +97,7 @@ fn run<W: World>(w: W, a: &Args, digest_only: bool) -> i32 {
         replay_dir: a.replay_dir.clone(),
         known_findings: format!("{}/known-findings.txt", verif_root()),
         digest_only,
+        merge_part: a.merge_part.clone(),
         max_wall_s: match a.tier {
             Tier::Quick => 600,
             Tier::Thorough => 3 * 3600,
@@ -110,6 +116,8 @@ fn dispatch(prop: &str, a: &Args, digest_only: bool) -> i32 {
         "C12" => run(cursor::C12, a, digest_only),
         "C16" => run(cursor::C16, a, digest_only),
         "C11" => run(integ::C11, a, digest_only),
+        "C19" => run(bytesrc::C19, a, digest_only),
+        "C18" => run(pipe::C18, a, digest_only),
         _ => {
             eprintln!("harness error: no world for property {prop}");
             2
@@ -150,6 +158,8 @@ fn main() {
                 Some("C12") => replay_world(Arc::new(cursor::C12), &doc),
                 Some("C16") => replay_world(Arc::new(cursor::C16), &doc),
                 Some("C11") => replay_world(Arc::new(integ::C11), &doc),
+                Some("C19") => replay_world(Arc::new(bytesrc::C19), &doc),
+                Some("C18") => replay_world(Arc::new(pipe::C18), &doc),
                 _ => {
                     eprintln!("harness error: replay file names no known property");
                     2
